@@ -68,7 +68,7 @@ example : callOk [chars% "-c", chars% "core.hooksPath=/dev/null", chars% "-C", c
 
 /-- the child is started on `to_invocation_vec(parse_git_cli_args(argv))`, whatever the hooks and faults do. -/
 theorem child_argv (K : GitKernel) (H : Hooks) (argv : List Str) (w : World) (plan : Plan) :
-    (run K H argv w plan).gitArgv = toVec (parse argv) := by
+    (run K H argv w plan).gitArgv = toVec (H.alias (parse argv)) := by
   unfold run
   simp only []
   split
@@ -84,10 +84,12 @@ theorem child_argv (K : GitKernel) (H : Hooks) (argv : List Str) (w : World) (pl
     child's argv is the user's argv: same tokens, same order — global options (`-C`, `-c k=v`,
     `--no-pager`, `--git-dir`), `--`, pathspecs, attached and detached values included. In wrapper mode
     nothing is injected (`resolve_child_git_hooks_path_override` is `None` without repo hook state); the
-    documented `--help`/`--version` normalisation is C18's `documented_normalisation_partial`. -/
+    documented `--help`/`--version` normalisation is C18's `documented_normalisation_partial`. `hA`: no alias
+    applies to the command; when one does, the child gets git-ai's expansion, which C18 (`alias_tokens_vs_gitSplit`,
+    `alias_tokens_eq_gitSplit`) shows to be git's own expansion outside its listed findings. -/
 theorem argv_identity (K : GitKernel) (H : Hooks) (argv : List Str) (w : World) (plan : Plan)
-    (h : preMeta argv = []) : (run K H argv w plan).gitArgv = argv := by
-  rw [child_argv, toVec_parse_of_no_meta argv h]
+    (h : preMeta argv = []) (hA : H.alias (parse argv) = parse argv) : (run K H argv w plan).gitArgv = argv := by
+  rw [child_argv, hA, toVec_parse_of_no_meta argv h]
 
 example : preMeta [chars% "-C", chars% "sub", chars% "-c", chars% "user.name=x", chars% "--no-pager",
     chars% "--git-dir=.git", chars% "commit", chars% "-m", chars% "msg", chars% "--", chars% "-weird path"] = [] := by decide
@@ -112,21 +114,21 @@ structure WF (H : Hooks) : Prop where
     `git argv'` in the original world (all extra effects are inside `A`); or git did not run, and then the
     wrapper stopped before git with a non-zero status and a diagnostic, `U` untouched. -/
 theorem transparent (K : GitKernel) (H : Hooks) (hH : WF H) (argv : List Str) (w : World)
-    (hI : K.indep (toVec (parse argv))) :
+    (hI : K.indep (toVec (H.alias (parse argv)))) :
     let o := run K H argv w []
-    let g := K.G (toVec (parse argv)) [] w
+    let g := K.G (toVec (H.alias (parse argv))) [] w
     (o.kind = .gitRan ∧ o.world.u = g.world.u ∧ o.status = g.status ∧ o.out = g.out) ∨
     ((o.kind = .refused ∨ o.kind = .crashed) ∧ o.world.u = w.u ∧ o.status ≠ 0 ∧ o.diag = true) := by
   intro o g
   -- prologue
-  have hu0 := exec_u K (hH.prologue_confined (parse argv)) ⟨w, [], false⟩
-  have hp0 := exec_plan_nil K (H.prologue (parse argv)) ⟨w, [], false⟩ rfl
-  have hk0 := exec_not_killed_nil K (H.prologue (parse argv)) ⟨w, [], false⟩ rfl
-  have hd0 := exec_diag K (H.prologue (parse argv)) ⟨w, [], false⟩
-  have hz0 := exec_exit_nz K (hH.prologue_exits_nz (parse argv)) ⟨w, [], false⟩
+  have hu0 := exec_u K (hH.prologue_confined (H.alias (parse argv))) ⟨w, [], false⟩
+  have hp0 := exec_plan_nil K (H.prologue (H.alias (parse argv))) ⟨w, [], false⟩ rfl
+  have hk0 := exec_not_killed_nil K (H.prologue (H.alias (parse argv))) ⟨w, [], false⟩ rfl
+  have hd0 := exec_diag K (H.prologue (H.alias (parse argv))) ⟨w, [], false⟩
+  have hz0 := exec_exit_nz K (hH.prologue_exits_nz (H.alias (parse argv))) ⟨w, [], false⟩
   show (_ ∧ _) ∨ _
   simp only [o, run]
-  generalize execProg K (H.prologue (parse argv)) ⟨w, [], false⟩ = r0 at *
+  generalize execProg K (H.prologue (H.alias (parse argv))) ⟨w, [], false⟩ = r0 at *
   obtain ⟨e0, s0⟩ := r0
   cases e0 with
   | killed => exact absurd rfl hk0
@@ -138,36 +140,36 @@ theorem transparent (K : GitKernel) (H : Hooks) (hH : WF H) (argv : List Str) (w
     exact ⟨Or.inl rfl, hu0, hz0 c rfl, hd0 (Or.inr ⟨c, rfl⟩)⟩
   | finished =>
     -- pre hooks
-    have hu1 := exec_u K (hH.pre_confined (parse argv)) s0
-    have hp1 := exec_plan_nil K (H.pre (parse argv)) s0 hp0
-    have hk1 := exec_not_killed_nil K (H.pre (parse argv)) s0 hp0
-    have hd1 := exec_diag K (H.pre (parse argv)) s0
-    have hz1 := exec_exit_nz K (hH.pre_exits_nz (parse argv)) s0
+    have hu1 := exec_u K (hH.pre_confined (H.alias (parse argv))) s0
+    have hp1 := exec_plan_nil K (H.pre (H.alias (parse argv))) s0 hp0
+    have hk1 := exec_not_killed_nil K (H.pre (H.alias (parse argv))) s0 hp0
+    have hd1 := exec_diag K (H.pre (H.alias (parse argv))) s0
+    have hz1 := exec_exit_nz K (hH.pre_exits_nz (H.alias (parse argv))) s0
     simp only []
-    generalize execProg K (H.pre (parse argv)) s0 = r1 at *
+    generalize execProg K (H.pre (H.alias (parse argv))) s0 = r1 at *
     obtain ⟨e1, s1⟩ := r1
     have hs1u : s1.w.u = w.u := by rw [hu1]; exact hu0
     -- the child sees `U` as it was: F1
-    have hF := K.frame_indep (toVec (parse argv)) w.u s1.w.a w.a hI
+    have hF := K.frame_indep (toVec (H.alias (parse argv))) w.u s1.w.a w.a hI
     have hw1 : s1.w = ⟨w.u, s1.w.a⟩ := by
       cases hs : s1.w with
       | mk u a => simp [hs] at hs1u; simp [hs1u]
-    have hgit : (K.G (toVec (parse argv)) [] s1.w).world.u = g.world.u ∧
-        (K.G (toVec (parse argv)) [] s1.w).status = g.status ∧
-        (K.G (toVec (parse argv)) [] s1.w).out = g.out := by
+    have hgit : (K.G (toVec (H.alias (parse argv))) [] s1.w).world.u = g.world.u ∧
+        (K.G (toVec (H.alias (parse argv))) [] s1.w).status = g.status ∧
+        (K.G (toVec (H.alias (parse argv))) [] s1.w).out = g.out := by
       rw [hw1]; exact hF
     -- post hooks
     have post_case :
-        let g1 := K.G (toVec (parse argv)) [] s1.w
-        let r2 := execProg K (H.post (parse argv) g1.status) ⟨g1.world, s1.plan, s1.diag⟩
+        let g1 := K.G (toVec (H.alias (parse argv))) [] s1.w
+        let r2 := execProg K (H.post (H.alias (parse argv)) g1.status) ⟨g1.world, s1.plan, s1.diag⟩
         r2.2.w.u = g.world.u ∧ r2.1 ≠ .killed ∧ ∀ c, r2.1 ≠ .exited c := by
       intro g1 r2
       refine ⟨?_, ?_, ?_⟩
-      · have := exec_u K (hH.post_confined (parse argv) g1.status) ⟨g1.world, s1.plan, s1.diag⟩
+      · have := exec_u K (hH.post_confined (H.alias (parse argv)) g1.status) ⟨g1.world, s1.plan, s1.diag⟩
         simp only [r2]
         rw [this]; exact hgit.1
       · exact exec_not_killed_nil K _ ⟨g1.world, s1.plan, s1.diag⟩ hp1
-      · exact fun c => exec_noexit K (hH.post_noexit (parse argv) g1.status) _ c
+      · exact fun c => exec_noexit K (hH.post_noexit (H.alias (parse argv)) g1.status) _ c
     cases e1 with
     | killed => exact absurd rfl hk1
     | exited c =>
@@ -177,8 +179,8 @@ theorem transparent (K : GitKernel) (H : Hooks) (hH : WF H) (argv : List Str) (w
       left
       simp only []
       obtain ⟨hpu, hpk, hpe⟩ := post_case
-      generalize execProg K (H.post (parse argv) (K.G (toVec (parse argv)) [] s1.w).status)
-        ⟨(K.G (toVec (parse argv)) [] s1.w).world, s1.plan, s1.diag⟩ = r2 at *
+      generalize execProg K (H.post (H.alias (parse argv)) (K.G (toVec (H.alias (parse argv))) [] s1.w).status)
+        ⟨(K.G (toVec (H.alias (parse argv))) [] s1.w).world, s1.plan, s1.diag⟩ = r2 at *
       obtain ⟨e2, s2⟩ := r2
       cases e2 with
       | killed => exact absurd rfl hpk
@@ -189,8 +191,8 @@ theorem transparent (K : GitKernel) (H : Hooks) (hH : WF H) (argv : List Str) (w
       left
       simp only []
       obtain ⟨hpu, hpk, hpe⟩ := post_case
-      generalize execProg K (H.post (parse argv) (K.G (toVec (parse argv)) [] s1.w).status)
-        ⟨(K.G (toVec (parse argv)) [] s1.w).world, s1.plan, s1.diag⟩ = r2 at *
+      generalize execProg K (H.post (H.alias (parse argv)) (K.G (toVec (H.alias (parse argv))) [] s1.w).status)
+        ⟨(K.G (toVec (H.alias (parse argv))) [] s1.w).world, s1.plan, s1.diag⟩ = r2 at *
       obtain ⟨e2, s2⟩ := r2
       cases e2 with
       | killed => exact absurd rfl hpk
@@ -208,37 +210,37 @@ theorem hooks_never_touch_u (K : GitKernel) (H : Hooks) (hH : WF H) (argv : List
     ((o.kind = .gitRan ∨ o.kind = .killedAfterGit) → o.world.u = (K.G o.gitArgv [] o.gitWorld).world.u) ∧
     ((o.kind = .refused ∨ o.kind = .crashed ∨ o.kind = .killedBeforeGit) → o.world.u = w.u) := by
   intro o
-  have hu0 := exec_u K (hH.prologue_confined (parse argv)) ⟨w, plan, false⟩
+  have hu0 := exec_u K (hH.prologue_confined (H.alias (parse argv))) ⟨w, plan, false⟩
   simp only [o, run]
-  generalize execProg K (H.prologue (parse argv)) ⟨w, plan, false⟩ = r0 at *
+  generalize execProg K (H.prologue (H.alias (parse argv))) ⟨w, plan, false⟩ = r0 at *
   obtain ⟨e0, s0⟩ := r0
   cases e0 with
   | killed => exact ⟨hu0, by simp, fun _ => hu0⟩
   | panicked => exact ⟨hu0, by simp, fun _ => hu0⟩
   | exited c => exact ⟨hu0, by simp, fun _ => hu0⟩
   | finished =>
-    have hu1 := exec_u K (hH.pre_confined (parse argv)) s0
+    have hu1 := exec_u K (hH.pre_confined (H.alias (parse argv))) s0
     simp only []
-    generalize execProg K (H.pre (parse argv)) s0 = r1 at *
+    generalize execProg K (H.pre (H.alias (parse argv))) s0 = r1 at *
     obtain ⟨e1, s1⟩ := r1
     have hs1u : s1.w.u = w.u := by rw [hu1]; exact hu0
-    have hpost := fun st => exec_u K (hH.post_confined (parse argv) st)
-      ⟨(K.G (toVec (parse argv)) [] s1.w).world, s1.plan, s1.diag⟩
+    have hpost := fun st => exec_u K (hH.post_confined (H.alias (parse argv)) st)
+      ⟨(K.G (toVec (H.alias (parse argv))) [] s1.w).world, s1.plan, s1.diag⟩
     cases e1 with
     | killed => exact ⟨hs1u, by simp, fun _ => hs1u⟩
     | exited c => exact ⟨hs1u, by simp, fun _ => hs1u⟩
     | finished =>
       simp only []
-      have := hpost (K.G (toVec (parse argv)) [] s1.w).status
-      generalize execProg K (H.post (parse argv) (K.G (toVec (parse argv)) [] s1.w).status)
-        ⟨(K.G (toVec (parse argv)) [] s1.w).world, s1.plan, s1.diag⟩ = r2 at *
+      have := hpost (K.G (toVec (H.alias (parse argv))) [] s1.w).status
+      generalize execProg K (H.post (H.alias (parse argv)) (K.G (toVec (H.alias (parse argv))) [] s1.w).status)
+        ⟨(K.G (toVec (H.alias (parse argv))) [] s1.w).world, s1.plan, s1.diag⟩ = r2 at *
       obtain ⟨e2, s2⟩ := r2
       cases e2 <;> exact ⟨hs1u, fun _ => this, by simp⟩
     | panicked =>
       simp only []
-      have := hpost (K.G (toVec (parse argv)) [] s1.w).status
-      generalize execProg K (H.post (parse argv) (K.G (toVec (parse argv)) [] s1.w).status)
-        ⟨(K.G (toVec (parse argv)) [] s1.w).world, s1.plan, s1.diag⟩ = r2 at *
+      have := hpost (K.G (toVec (H.alias (parse argv))) [] s1.w).status
+      generalize execProg K (H.post (H.alias (parse argv)) (K.G (toVec (H.alias (parse argv))) [] s1.w).status)
+        ⟨(K.G (toVec (H.alias (parse argv))) [] s1.w).world, s1.plan, s1.diag⟩ = r2 at *
       obtain ⟨e2, s2⟩ := r2
       cases e2 <;> exact ⟨hs1u, fun _ => this, by simp⟩
 
@@ -279,20 +281,20 @@ theorem refusal_only_precommit :
 /-- model side of the same fact: with hook programs consistent with the inventories, a refusal (an exit
     before git) happens only for `commit`, or in the start-up prologue. -/
 theorem refused_only_commit_or_startup (K : GitKernel) (H : Hooks) (hH : WF H) (argv : List Str) (w : World)
-    (plan : Plan) (hc : (parse argv).command ≠ some commitWord)
-    (hp : NoExit (H.prologue (parse argv))) : (run K H argv w plan).kind ≠ .refused := by
+    (plan : Plan) (hc : (H.alias (parse argv)).command ≠ some commitWord)
+    (hp : NoExit (H.prologue (H.alias (parse argv)))) : (run K H argv w plan).kind ≠ .refused := by
   have h0 := exec_noexit K hp ⟨w, plan, false⟩
   simp only [run]
-  generalize execProg K (H.prologue (parse argv)) ⟨w, plan, false⟩ = r0 at *
+  generalize execProg K (H.prologue (H.alias (parse argv))) ⟨w, plan, false⟩ = r0 at *
   obtain ⟨e0, s0⟩ := r0
   cases e0 with
   | killed => simp
   | panicked => simp
   | exited c => exact absurd rfl (h0 c)
   | finished =>
-    have h1 := exec_noexit K (hH.pre_exit_only_commit (parse argv) hc) s0
+    have h1 := exec_noexit K (hH.pre_exit_only_commit (H.alias (parse argv)) hc) s0
     simp only []
-    generalize execProg K (H.pre (parse argv)) s0 = r1 at *
+    generalize execProg K (H.pre (H.alias (parse argv))) s0 = r1 at *
     obtain ⟨e1, s1⟩ := r1
     cases e1 with
     | killed => simp
@@ -325,6 +327,7 @@ def revParseArgv : List Str := [chars% "rev-parse", chars% "--is-bare-repository
 /-- hook programs of the shape the code has: a start-up probe, a pre-commit program that refuses when its
     state read fails, a post-commit program that writes a note and its journal when the commit succeeded. -/
 def demoHooks : Hooks where
+  alias := id
   prologue := fun _ => .step (.git revParseArgv []) fun _ => .step (.fsA id) fun r =>
     match r with
     | .err => .panic      -- `ensure_config_directory().unwrap()`
